@@ -707,6 +707,89 @@ def rule_r6(F, rep):
     rep.floor(R, n, 70, "state x byte-class transitions")
 
 
+def rule_r7(F, rep):
+    R = rep.rule("C14.R7", "every digit of a number literal is kept: in lex_number each digit byte taken from the input in the "
+                 "integer and fraction parts is appended to the token's digit string on that path (a digit that is only counted, "
+                 "or dropped beyond some length, changes the value the token denotes)")
+    fn = F.fn("<%s>::lex_number" % LEXER)
+    body = fn.body
+    P = prov.Prov(F, body)
+    succ = body.succ_map()
+    # digit-taking steps: eat_get_byte_if(closure is_ascii_digit); their success edge
+    n = 0
+    for bb, t in body.calls():
+        nme = callee_name(t) or ""
+        if not nme.startswith("<%s>::eat_get_byte_if" % LEXER):
+            continue
+        cont = t["t"]
+        sw = body.blocks[cont]["t"] if cont is not None else None
+        # discriminant switch on the Option: Some edge
+        some = None
+        cur = cont
+        for _ in range(3):
+            tt = body.blocks[cur]["t"]
+            if tt["k"] == "switch":
+                some = [tb for v, tb in tt["arms"] if v == 1] or [tt["else"]]
+                break
+            ss = succ[cur]
+            if len(ss) != 1:
+                break
+            cur = ss[0]
+        if not some:
+            continue
+        # is this digit destined for the exponent (u64 arithmetic) or for the digit string? exponent sites feed `explicit_exp`
+        reach = cfg.reachable(succ, some, blocked_nodes=[b for b, t2 in body.calls() if (callee_name(t2) or "").startswith("<%s>::eat_" % LEXER)])
+        pushes = [b for b in reach if body.blocks[b]["t"]["k"] == "call" and (callee_name(body.blocks[b]["t"]) or "") == "<alloc::string::String>::push"]
+        feeds_exp = any(st["k"] == "assign" and st["rv"]["k"] == "cast" and st["rv"]["ck"] == "IntToInt" and body.ty(st["p"]["t"])["s"] == "u64"
+                        for b in reach for st in body.blocks[b]["s"]) or \
+            any(body.blocks[b]["t"]["k"] == "call" and (callee_name(body.blocks[b]["t"]) or "").endswith("From<u8>>::from") and
+                body.ty(body.blocks[b]["t"]["dst"]["t"])["s"] == "u64" for b in reach)
+        if not pushes:
+            continue          # an exponent digit (accumulated arithmetically); the floor below keeps the mantissa sites honest
+        n += 1
+        # every path from the success edge to the next consuming step / loop head must pass a push
+        stops = [b for b, t2 in body.calls() if (callee_name(t2) or "").startswith("<%s>::eat_" % LEXER)]
+        wo = cfg.reachable(succ, some, blocked_nodes=pushes)
+        escaped = [b for b in wo if b in stops or body.blocks[b]["t"]["k"] == "return"]
+        # error returns right after taking the digit (leading zero) are fine: they construct a LexError
+        def is_err_path(b):
+            return any(st["k"] == "assign" and st["rv"]["k"] == "agg" and str(st["rv"].get("adt", "")).endswith("LexError") for st in body.blocks[b]["s"])
+        err_blocks = {b for b in wo if is_err_path(b)}
+        wo2 = cfg.reachable(succ, some, blocked_nodes=list(set(pushes) | err_blocks))
+        escaped = [b for b in wo2 if b in stops]
+        ok = bool(pushes) and not escaped
+        rep.ob(R, "lex_number|digit@%s" % body.span(t["sp"]).rsplit(":", 2)[-2], ok, {"site": body.span(t["sp"]), "appends": len(pushes)})
+        if not ok:
+            rep.violation(R, "lex_number|digit-dropped", "lex_number takes a digit from the input (%s) and can go on to the next "
+                          "byte without appending it to the digit string" % body.span(t["sp"]), body.span(t["sp"]))
+    rep.floor(R, n, 3, "digit-taking steps of the integer/fraction parts")
+
+
+def rule_r8(F, rep):
+    R = rep.rule("C14.R8", "error spans of the lexer end where the lexer stands: the end offset handed to make_span is the cursor "
+                 "(`end_pos`, possibly minus a constant), never a position computed from decoded characters — a computed end can "
+                 "lie beyond the input (the span constructor then panics) or cover bytes that are not part of the error")
+    n = 0
+    for fn in F.fn_list:
+        if fn.crate.name != "rsjsonnet_lang" or "::lexer::" not in fn.q:
+            continue
+        P = None
+        for bb, t in fn.body.calls():
+            if (callee_name(t) or "") != "<%s>::make_span" % LEXER:
+                continue
+            n += 1
+            if P is None:
+                P = prov.Prov(F, fn.body)
+            org = P.origins_op(t["xs"][2], through_arith=True)
+            bad = [o for o in org if not (o[0] == "const" or (o[0] == "field" and o[2] in ("end_pos", "start_pos")) or o[0] == "arg")]
+            ok = not bad
+            rep.ob(R, "%s|make_span@%s" % (fn.q.rsplit("::", 1)[-1], fn.body.span(t["sp"]).rsplit(":", 2)[-2]), ok)
+            if not ok:
+                rep.violation(R, "%s|span-end-computed" % fn.q, "%s builds a span whose end is computed from %s instead of the "
+                              "lexer cursor" % (fn.q, sorted(map(str, bad))[:3]), fn.body.span(t["sp"]))
+    rep.floor(R, n, 10, "make_span call sites in the lexer")
+
+
 def run(F, rep, tier):
     rule_r3(F, rep)
     rule_r2(F, rep)
@@ -714,5 +797,7 @@ def run(F, rep, tier):
     rule_r4(F, rep)
     rule_r5(F, rep)
     rule_r6(F, rep)
+    rule_r7(F, rep)
+    rule_r8(F, rep)
     rep.assume("text-block indentation stripping, number token values and operator maximal munch are behavioural and not decided")
     return EXPLANATION
